@@ -29,7 +29,9 @@ SHAPES = ["flat Sequence", "tail nested in a Sequence at a symbolic cut",
 BOUNDS = dict(vars(B), items=ITEMS, shapes=SHAPES, meaning="programs of <= LEN items over `items` in "
               "the first SHAPES tree shapes (symbolic cut), extended by a suffix of <= SUF later "
               "SetContext elements / a sibling Split branch, which must not change any earlier "
-              "observation")
+              "observation; check_no_leak: sequences of <= 3 items over SetContext / "
+              "UpdateContextFromStatic / MakeFilename / an in-place run-time context mutator, a flow "
+              "of two values, run twice")
 FUNCTIONS = ["lena.core.lena_sequence.LenaSequence.__init__/_set_context/_get_context",
              "lena.core.split.LenaSplit._set_context/_get_context", "lena.meta.elements.SetContext",
              "StoreContext", "UpdateContextFromStatic", "MakeFilename._set_context/__call__",
@@ -256,44 +258,72 @@ def check_program(n: int, k0: int, k1: int, k2: int, k3: int, shape: int, cut: i
     return h.ok(True)
 
 
+def mark(v):
+    """An ordinary run-time element that updates its value's context in place:
+    every sub-dictionary gets the key "rt" set to the data."""
+    data, ctx = v
+    for key in sorted(ctx):
+        if isinstance(ctx[key], dict):
+            ctx[key]["rt"] = data
+    return v
+
+
 def check_no_leak(n: int, k0: int, k1: int, k2: int, nested: bool) -> bool:
     """
     pre: 1 <= n <= 3
-    pre: 0 <= k0 <= 6 and 0 <= k1 <= 6 and 0 <= k2 <= 6
+    pre: 0 <= k0 <= 7 and 0 <= k1 <= 7 and 0 <= k2 <= 7
     pre: h.in_shard(k0)
     post: _
     """
-    # run-time context gets static keys only through UpdateContextFromStatic
+    # run-time context gets static keys only through UpdateContextFromStatic,
+    # and nothing done to a value at run time reaches the static context (or
+    # the next value, or the next run of the same sequence); kind 7 = mark
     n = h.concrete(n, 1, 3)
-    kinds = [h.concrete(k, 0, 6) for k in [k0, k1, k2][:n]]
-    els = [make_item(k) for k in kinds]
+    kinds = [h.concrete(k, 0, 7) for k in [k0, k1, k2][:n]]
+    els = [mark if k == 7 else make_item(k) for k in kinds]
     seq = Sequence(Sequence(*els)) if nested else Sequence(*els)
-    res = list(seq.run(iter([(7, {})])))
-    if len(res) != 1:
-        return h.ok(False)
-    data, ctx = res[0]
-    # expected run-time context: for each UCFS the fold before it, merged in order
-    want = {}
-    cur = {}
-    failed = False
-    for k in kinds:
-        if k in (1, 2, 3):
-            if not failed:
-                try:
-                    cur = apply_set(cur, k)
-                except KeyError:
-                    failed = True
-        elif k == 5:
-            if failed:
-                return h.ok(True)      # unspecified after an unresolved key
-            lena.context.update_recursively(want, copy.deepcopy(cur))
-        elif k == 6:
-            if failed:
-                return h.ok(True)
-            a = want.get("a", cur.get("a"))
-            if a is not None and "filename" not in want.get("output", {}):
-                lena.context.update_recursively(want, {"output": {"filename": a}})
-    return h.ok(data == 7 and ctx == want)
+    # expected run-time context of a value: for each UCFS the fold before it, merged in order
+    wants = []
+    folds = {}
+    for data in (7, 8):
+        want = {}
+        cur = {}
+        failed = False
+        for p, k in enumerate(kinds):
+            if k in (1, 2, 3):
+                if not failed:
+                    try:
+                        cur = apply_set(cur, k)
+                    except KeyError:
+                        failed = True
+            elif k == 5:
+                if failed:
+                    return h.ok(True)      # unspecified after an unresolved key
+                folds[p] = copy.deepcopy(cur)
+                lena.context.update_recursively(want, copy.deepcopy(cur))
+            elif k == 6:
+                if failed:
+                    return h.ok(True)
+                a = want.get("a", cur.get("a"))
+                if a is not None and "filename" not in want.get("output", {}):
+                    lena.context.update_recursively(want, {"output": {"filename": a}})
+            elif k == 7:
+                for key in sorted(want):
+                    if isinstance(want[key], dict):
+                        want[key]["rt"] = data
+        wants.append((data, want))
+    for run in range(2):
+        res = list(seq.run(iter([(7, {}), (8, {})])))
+        if len(res) != 2:
+            return h.ok(False)
+        for i in range(2):
+            if res[i][0] != wants[i][0] or res[i][1] != wants[i][1]:
+                return h.ok(False)
+        # what UpdateContextFromStatic saw at initialisation is still the fold
+        for p in folds:
+            if els[p]._context != folds[p]:
+                return h.ok(False)
+    return h.ok(True)
 
 
 CONDITIONS = [
@@ -301,6 +331,7 @@ CONDITIONS = [
          smoke=["check_program(2, 1, 4, 2, 0, 0, 0, 1, False)", "check_program(2, 1, 3, 5, 0, 1, 1, 1, False)",
                 "check_program(2, 1, 6, 7, 0, 2, 1, 0, True)", "check_program(2, 3, 4, 8, 0, 3, 0, 0, False)",
                 "check_program(2, 9, 4, 0, 0, 2, 1, 0, False)", "check_program(2, 1, 6, 0, 0, 4, 1, 1, False)", "check_program(2, 1, 5, 0, 0, 5, 1, 1, False)", "check_program(2, 2, 10, 0, 0, 0, 0, 1, False)"]),
-    dict(fn="check_no_leak", shards=(7, 7), budget=(80, 900),
-         smoke=["check_no_leak(3, 1, 5, 6, False)", "check_no_leak(2, 1, 6, 0, True)"]),
+    dict(fn="check_no_leak", shards=(8, 8), budget=(80, 900),
+         smoke=["check_no_leak(3, 1, 5, 6, False)", "check_no_leak(2, 1, 6, 0, True)",
+                "check_no_leak(3, 2, 5, 7, False)", "check_no_leak(3, 5, 7, 5, True)"]),
 ]
